@@ -78,6 +78,11 @@ pub enum Kind {
         buf_a: u32,
         buf_b: u32,
     },
+    /// engine (w): an operation history on WakerSet / ScheduledWakerQueue
+    /// against the reference model (no shell involved)
+    Wakers {
+        hist: crate::wakers::WHist,
+    },
     /// reader exits early: liveness and prefix integrity only
     EarlyExit {
         n: u32,
@@ -448,6 +453,7 @@ fn render_body(c: &Case) -> (String, Option<String>) {
             ),
             None,
         ),
+        Kind::Wakers { hist } => (format!("# waker history: {}\n", serde_json::to_string(hist).unwrap_or_default()), None),
         Kind::EarlyExit {
             n,
             s,
@@ -633,6 +639,22 @@ fn check_run(c: &Case, expected: &Option<String>, obs: &Observed) -> Option<(Str
     None
 }
 
+fn waker_failure(hist: &crate::wakers::WHist, class: String, detail: String) -> Failure {
+    Failure {
+        key: format!("wakers:{class}"),
+        class,
+        detail: format!("{detail}\n--- history ---\n{}", serde_json::to_string(&hist.ops).unwrap_or_default()),
+        case: serde_json::to_value(Case {
+            kind: Kind::Wakers { hist: hist.clone() },
+            dash_c: false,
+        })
+        .unwrap(),
+        cfg: SimConfig::default(),
+        decisions: Vec::new(),
+        history_tail: Vec::new(),
+    }
+}
+
 fn run_crash(c: &Case, cfg: &SimConfig, decider: Decider) -> Observed {
     run_script_with(&spec_of(c), cfg, decider, |_| {}, crate::shellrun::crash_env(cfg))
 }
@@ -709,6 +731,26 @@ impl Prop for C14 {
         let case = generate(&mut rng, tier);
         let (script, expected) = render(&case);
         let case_hash = hash_str(&script);
+        // engine (w): wake-up bookkeeping histories (cheap: tens per case)
+        {
+            let mut wr = Rng::stream(seed, 1477, index);
+            let n = match tier {
+                Tier::Quick => 20,
+                Tier::Thorough => 60,
+            };
+            let mut reach = std::collections::BTreeMap::new();
+            for _ in 0..n {
+                let hist = crate::wakers::generate(&mut wr, tier == Tier::Thorough);
+                stats.count("waker_histories", 1);
+                if let Some((class, detail)) = crate::wakers::run(&hist, &mut reach) {
+                    stats.count("violating_runs", 1);
+                    return Some(waker_failure(&hist, class, detail));
+                }
+            }
+            for (k, v) in reach {
+                stats.count(k, v);
+            }
+        }
         let schedules = match tier {
             Tier::Quick => 8,
             Tier::Thorough => 24,
@@ -730,6 +772,7 @@ impl Prop for C14 {
                     Kind::EarlyExit { .. } => "kind:early-exit-reader",
                     Kind::TwoWriters { .. } => "kind:two-writers-atomicity",
                     Kind::TwoReaders { .. } => "kind:two-readers-partition",
+                    Kind::Wakers { .. } => "kind:waker-history",
                 };
                 stats.count(kind, 1);
                 if k == 0 && stats.samples.len() < 3 && index % 7 == 0 {
@@ -772,6 +815,10 @@ impl Prop for C14 {
 
     fn rerun(&self, case: &Value, cfg: &SimConfig, decisions: &[Decision]) -> Option<Failure> {
         let c: Case = serde_json::from_value(case.clone()).ok()?;
+        if let Kind::Wakers { hist } = &c.kind {
+            let mut reach = std::collections::BTreeMap::new();
+            return crate::wakers::run(hist, &mut reach).map(|(class, detail)| waker_failure(hist, class, detail));
+        }
         if cfg.crash_permille > 0 {
             let obs = run_crash(&c, cfg, Decider::replay(decisions));
             return crate::shellrun::check_liveness(&obs).map(|mut v| {
@@ -871,6 +918,11 @@ impl Prop for C14 {
             Kind::TwoReaders { n, s, chunk, buf_a, buf_b } => {
                 for m in smaller(*n) {
                     push(Kind::TwoReaders { n: m, s: *s, chunk: *chunk, buf_a: *buf_a, buf_b: *buf_b });
+                }
+            }
+            Kind::Wakers { hist } => {
+                for h in crate::wakers::shrink(hist) {
+                    push(Kind::Wakers { hist: h });
                 }
             }
             Kind::EarlyExit { n, s, chunk, buf, limit } => {
